@@ -11,6 +11,7 @@ func main() {
 		"C10": c10{},
 		"C11": c11{},
 		"C12": c12{},
+		"C13": c13{},
 		"C14": c14{},
 	})
 }
